@@ -1165,7 +1165,19 @@ pub fn generate(ctx: &Ctx, prop: &str, rng: &mut Rng64, thorough: bool, index: u
                 heavy_budget = 0;
             }
             let _ = session(rng, &mut s, &mut heavy_budget, n, prop == "C04");
-            if rng.chance(300) {
+            if rng.chance(200) {
+                // the last search ends by itself (depth limit) and the session ends a drawn
+                // number of steps later: before, while and after the writer prints the answer
+                let p = Pos::from_fen(rng.pick(corpus::NORMAL)).unwrap();
+                s.push(UStep::Line(format!("position fen {}", p.fen())));
+                s.push(UStep::Line(format!("go depth {}", 1 + rng.below(2))));
+                let k = match rng.below(3) {
+                    0 => rng.below(60),
+                    1 => rng.below(400),
+                    _ => rng.below(2500),
+                };
+                s.push(UStep::Steps(k as u32));
+            } else if rng.chance(300) {
                 s.push(UStep::Line("isready".to_string()));
             }
             if rng.chance(500) {
